@@ -187,7 +187,7 @@ PLAN = {
     "C19": {"level": "exploration", "engines": _live("wb", 48, 1440), "min_nontrivial": 12,
             "assumptions": ["'bounded' is judged logically (pending-work accessor reaches zero, durable prefix equals the accepted state); wall-clock only fails a run after 10 s without drain AND 5 s without device activity; drain times are reported as a distribution"] + CRASH_ASSUMPTIONS[:2]},
     "C07": {"level": "exploration", "engines": LIN, "min_nontrivial": 500, "assumptions": CONC_ASSUMPTIONS},
-    "C08": {"level": "exploration", "engines": REUSE, "min_nontrivial": 50, "assumptions": CONC_ASSUMPTIONS + ["one writer per key, so each key's writes form a sequence with recorded intervals; readers never modify"]},
+    "C08": {"level": "exploration", "engines": REUSE, "min_nontrivial": 20, "assumptions": CONC_ASSUMPTIONS + ["one writer per key, so each key's writes form a sequence with recorded intervals; readers never modify"]},
     "C02": {"level": "fault_enumeration", "engines": _both(_crash("ack", 14, 240), _crash_chain, _crash_split), "min_nontrivial": 200, "assumptions": CRASH_ASSUMPTIONS},
     "C03": {"level": "fault_enumeration", "engines": _both(_crash("all", 14, 240), _crash_split), "min_nontrivial": 200, "assumptions": CRASH_ASSUMPTIONS},
     "C04": {"level": "fault_enumeration", "engines": _both(_crash("idem", 4, 60, cuts_q=50, cuts_t=120), _sweep("bigretire", 2, 2, 24, 8)), "min_nontrivial": 50, "assumptions": CRASH_ASSUMPTIONS},
